@@ -129,13 +129,19 @@ class Ctx:
             Obligation(f"{self.unit.uid}/{name}", kind, hyps, goal, dict(inputs if inputs is not None else self.inputs), replay, excluded, source, list(hints or []))
         )
 
-    def oblige_steps(self, name, st_or_hyps, steps, **kw):
+    def oblige_steps(self, name, st_or_hyps, steps, final_hyps=None, **kw):
         """cut rule: prove steps[0], then steps[1] with steps[0] as an extra hypothesis, ...; the last step is the goal.
-        Every step is an obligation of its own (a lemma is never assumed without having been discharged)."""
+        Every step is an obligation of its own (a lemma is never assumed without having been discharged).
+        final_hyps: prove the goal from these facts (a subset of the state's facts) and the lemmas only -- the lemmas
+        then summarise the state, which keeps large summary facts out of the last query."""
         hyps = list(st_or_hyps.pc) if isinstance(st_or_hyps, State) else list(st_or_hyps)
+        if final_hyps is not None:
+            ids = {h.get_id() for h in hyps}
+            assert all(h.get_id() in ids for h in final_hyps), "final_hyps must be facts of the state"
         for k, stp in enumerate(steps):
             last = k == len(steps) - 1
-            self.oblige(name if last else f"{name}.lemma{k}", hyps + list(steps[:k]), stp, **(kw if last else dict(kw, kind="lemma")))
+            base = list(final_hyps) if (last and final_hyps is not None) else hyps
+            self.oblige(name if last else f"{name}.lemma{k}", base + list(steps[:k]), stp, **(kw if last else dict(kw, kind="lemma")))
 
     def local_var(self, st, name):
         """value of a local variable of the (already returned) function under analysis in state st"""
